@@ -97,6 +97,24 @@ Theorem C06_refuse_cluster_double : forall c now sticky notify expiry f,
 Proof. exact cka_cluster_refused. Qed.
 Print Assumptions C06_refuse_cluster_double.
 
+(* The three entry points side by side, in the form that is true of the code: all refuse a double
+   acknowledgement leaving the state untouched; the API action and the external commands also refuse an OK/Up
+   object and a non-future expiry; the cluster event applies the message to ANY unacknowledged object -
+   for an OK/Up one that is finding F-C06-a (cluster-ok-accepted), see C06_cluster_ok_refuted *)
+Theorem C06_refuse_entry_points : forall c now e sticky notify pers eg expiry f,
+  let st := cka_step c now f (cka_entry_op e sticky notify pers eg expiry) in
+  (cka_eff_ack now f <> AckNone ->
+     fst st = f /\ cka_count cka_is_set (snd st) = 0 /\ cka_count cka_is_nack (snd st) = 0 /\
+     cka_count cka_is_clr (snd st) = 0) /\
+  (forall v, e = CkeBase v ->
+     entry_state_ok c f = true \/ cka_expiry_bad now v eg expiry = true ->
+     fst st = f /\ cka_count cka_is_set (snd st) = 0 /\ cka_count cka_is_nack (snd st) = 0 /\
+     cka_count cka_is_clr (snd st) = 0) /\
+  (e = CkeCluster -> cka_eff_ack now f = AckNone ->
+     f_ack (fst st) = (if sticky then AckSticky else AckNormal) /\ cka_count cka_is_set (snd st) = 1).
+Proof. exact cka_refuse_entry_points. Qed.
+Print Assumptions C06_refuse_entry_points.
+
 (* ... but NOT an OK/Up object (finding F-C06-a, known_findings: cluster-ok-accepted): concrete reachable witness *)
 Theorem C06_cluster_ok_refuted :
   let c := cka_witness_cfg in
@@ -146,6 +164,18 @@ Theorem C06_notify_once : forall c now f o,
   if cka_op_notify o && negb (f_paused f) && (0 <? cka_count cka_is_set (snd (cka_step c now f o))) then 1 else 0.
 Proof. exact cka_step_notify_once. Qed.
 Print Assumptions C06_notify_once.
+
+(* ... spelled out by cases, the paused (HA-passive) object being a stated branch, not a hypothesis *)
+Theorem C06_notify_cases : forall c now f o,
+  let n := cka_count cka_is_nack (snd (cka_step c now f o)) in
+  let sets := cka_count cka_is_set (snd (cka_step c now f o)) in
+  (cka_op_notify o = true -> sets = 1 -> f_paused f = false -> n = 1) /\
+  (f_paused f = true -> n = 0) /\
+  (cka_op_notify o = false -> n = 0) /\
+  (sets = 0 -> n = 0) /\
+  0 <= n <= 1.
+Proof. exact cka_step_notify_cases. Qed.
+Print Assumptions C06_notify_cases.
 
 (* Over ALL histories from ANY state: set and cleared events alternate strictly and agree with the attribute -
    every transition to none is reported exactly once, there is no cleared event otherwise, and no second set
